@@ -13,9 +13,15 @@ THEOREMS = ["SysLoss.C02." + t for t in (
     "local_fed", "local_source_partial", "local_mux", "compRow_domain_only", "compRows_numeric", "steady_currents_nonneg",
     "node_balance", "node_balance_mux", "table_balance_partial", "table_balance_mux_partial",
     "table_balance_of_nonneg_partial", "table_balance_mux_of_nonneg_partial", "table_balance_full_fails",
-    "table_balance_full_f01_fails", "converter_vo0_breaks_identity")] + [
+    "table_balance_full_f01_fails", "converter_vo0_breaks_identity",
+    # Props/C02Conv: what solve() really returns - a tolerance-converged state: explicit defect bounds
+    "row_power_defect_bound", "row_power_defect_bound_source_partial", "row_power_defect_bound_mux", "system_balance_resid",
+    "table_balance_defect_bound_partial", "table_balance_defect_bound_mux_partial", "solvePhase_convAt",
+    "solve_table_balance_defect_bound_partial", "linkM_eq_zero", "srcLink_bound", "dead_mux_current_bound", "share_split",
+    "lawShift_eq_zero", "currVinFree_of_par", "converter_shift", "shiftW_converter_bound", "balance_defect_small",
+    "balance_defect_small_conv", "table_balance_defect_bound_full_fails")] + [
     "SysLoss.sum_kids_exchange"]
-MODULES = ["SysLoss.Props.C02", "SysLoss.Props.C02Table"]
+MODULES = ["SysLoss.Props.C02", "SysLoss.Props.C02Table", "SysLoss.Props.C02Conv"]
 LEVEL_TEXT = ("Theorems (Lean 4, any linearly ordered field, arbitrary row values): for every non-load kind the defect of "
               "Power-Loss = |Vout|*Iout is an explicit multiple of the row's deviation from its documented current law "
               "(hence zero in a steady state); 0 <= Loss <= Power and the efficiency formula within [0,100]; a load books its "
@@ -30,8 +36,11 @@ LEVEL_TEXT = ("Theorems (Lean 4, any linearly ordered field, arbitrary row value
               "Partial: negative Source with series resistance (F01), temperature rise of non-loss loads (F24) and a Converter "
               "set to vo = 0 that still books its quiescent loss (F35, found by the proof attempt: `converter_vo0_breaks_identity`) "
               "violate the property, are test-pinned, proved as counterexamples (…_full_fails) and reported as KNOWN-FINDING.")
-LEVEL_NOTE = ("The table balance is proved for exact steady states; for tolerance-converged tables the residual form "
-              "(`pml_resid_*`) gives the per-row defect, the summed defect is checked by the oracle only.")
+LEVEL_NOTE = ("Exact steady states: the balance holds exactly (Props/C02Table). What solve() really returns is a tolerance-converged state; for those "
+              "Props/C02Conv bounds the defect of the per-row identity by rowTol = |Vin|*(atol+itol*|Iin|)/(1-itol) + |Iout|*(atol+vtol*|Vout|)/(1-vtol) (plus an explicit "
+              "law-shift term for parameters tabulated over the supply voltage) and the defect of the whole-table balance by the sum of the row bounds and one link term "
+              "per Source (`solve_table_balance_defect_bound_partial`; with atol = 0 and vtol = itol = eps: |defect| <= eps/(1-eps) * sum of row scales, "
+              "`balance_defect_small`). The oracle's power-level tolerance `ptol` = 8*(atol*(v+i+1) + (vtol+itol)*v*i) dominates that bound (factor 8 for IEEE rounding and the law shift).")
 RULE = ("random power trees as for C01 plus ambient temperature ta in [-60,150], thermal resistances on ~50% of the components, "
         "phases on 30% of the systems; non-trivial = solved and >= 3 components")
 ASSUMPTIONS = ["IEEE rounding outside the theorems; power-level tolerances derived from the solver's exit test"]
